@@ -41,6 +41,10 @@ ASSUMPTIONS = [
     "unencodable text and streams are outside the key domain; float('nan') (the canonical quiet NaN) is inside it since the repair of C02-F2: "
     'Disk.put pickles it, so it is routed by adler32 of its pickle like every pickled key (C13_routing_nan); the recorded routing table '
     '(fixtures/routing.json, released routing) has no NaN entry and is unchanged',
+    'Disk configurations: the Disk class is a constructor argument (not stored in the directory), so every later handle repeats it; the disk_ settings '
+    '(compress level, pickle protocol) are stored and are NOT repeated.  Under JSONDisk two keys are the same key exactly when json.dumps gives the '
+    'same text (so [1, "k"] and (1, "k") are one key, 1 and 1.0 are two); the Coq dictionary is not run on these histories',
+    'falsy tags: a history draws at most one of the numeric tags 0 and 0.0 (SQLite compares them equal, the Coq dictionary compares tags structurally)',
     'two-handle settings histories: a write through a handle whose cull_limit is not 0 is done as one write into every shard at a standing clock '
     '(cull_limit 1000 > number of items), because a shard removes only its own expired / evictable items; size limits are only 0 (always over) or 2**40 '
     '(never over); the value a FanoutCache reports for size_limit (a share) is not compared with the unsharded one',
@@ -147,29 +151,114 @@ def gen_pool(rng, size, finding=False):
 
 
 # ---------------------------------------------------------------------------
+# Disk configurations: the serialisation is a setting of the cache (a Disk subclass such as the shipped JSONDisk with its compress
+# level; disk_pickle_protocol).  "Which shard holds a key is a fixed function of the key ... for keys the cache treats as equal":
+# the cache compares keys by what ITS Disk makes of them, so the routing must be that Disk's hash.
+# A configuration is None (all defaults), {'json': compress_level} or {'proto': pickle_protocol}.
+
+DISK_CONFIGS = [{'json': 1}, {'proto': 0}, {'json': 0}, {'proto': 2}, {'json': 6}, {'proto': PROTO}, {'json': 9}]
+# keys JSONDisk accepts; several spellings of one key (JSON has one array type and only text object keys)
+JSON_KEYS = ['', 'a', 'ab', 'k1', '\xe9', '\u20ac', 'x' * 40, 0, 1, -1, 2 ** 40, 1.5, 1.0, True, False, None,
+             [1, 'k'], (1, 'k'), [2, 'k'], (2, 'k'), [3, 'k'], (3, 'k'), [], (), [[1], 2], ((1,), 2), [1, [2, 3]], (1, (2, 3)),
+             {'1': 'x'}, {1: 'x'}, {'2': 'x'}, {2: 'x'}, {'a': [1, 2]}, {'a': (1, 2)}, [None], (None,), ['a', 'b', 'c'], ('a', 'b', 'c')]
+PROTO_KEYS = OTHERS + BIGINTS + NAN_KEYS + ['a', '\u20ac', b'a', 0, 7, 2 ** 32, 1.5, ('a', (2, 3.5), None), (2 ** 70, b'x')]
+
+
+def disk_label(dc):
+    if not dc:
+        return 'Disk'
+    return 'JSONDisk(compress_level=%d)' % dc['json'] if 'json' in dc else 'Disk(pickle_protocol=%d)' % dc['proto']
+
+
+def disk_settings(dc):
+    """the constructor arguments of Cache / FanoutCache for a configuration"""
+    if not dc:
+        return {}
+    if 'json' in dc:
+        return {'disk': diskcache.JSONDisk, 'disk_compress_level': dc['json']}
+    return {'disk_pickle_protocol': dc['proto']}
+
+
+def disk_reopen_settings(dc):
+    """what a later handle has to repeat: the Disk class (it is not stored in the directory); the disk_ settings are stored"""
+    return {'disk': diskcache.JSONDisk} if dc and 'json' in dc else {}
+
+
+def own_disk(dc, directory):
+    """a Disk of the configuration built by the harness (never handed to a cache): its hash is the routing the property promises"""
+    if dc and 'json' in dc:
+        return diskcache.JSONDisk(directory, compress_level=dc['json'])
+    return diskcache.Disk(directory, pickle_protocol=dc['proto'] if dc else PROTO)
+
+
+def ident_for(dc):
+    """key identity under a configuration: JSONDisk compares keys by their JSON text, every pickle protocol by type and structure"""
+    if dc and 'json' in dc:
+        return lambda k: ('j', json.dumps(k))
+    return ident
+
+
+def gen_disk_pool(rng, dc, size):
+    if 'json' in dc:
+        pool = []
+        while len(pool) < size:
+            i = rng.randrange(len(JSON_KEYS))
+            group = [JSON_KEYS[i]]
+            if rng.random() < 0.7:      # the other spellings of that key
+                group = [k for k in JSON_KEYS if json.dumps(k) == json.dumps(JSON_KEYS[i])]
+            for k in group:
+                if not any(val.same(k, p) for p in pool):
+                    pool.append(k)
+        return pool
+    return gen_pool(rng, size)
+
+
+def disk_history_ops(dc, ops):
+    """JSONDisk keeps every value as compressed JSON: counters (incr / decr) and raw reads (read=True, Cache.read) are not part of
+    what it offers, and a value handed over as a stream is stored raw and cannot be decoded by a plain lookup -- those calls become
+    plain lookups / plain stores."""
+    if 'json' not in dc:
+        return ops
+    out = []
+    for o in ops:
+        o = dict(o)
+        if o['op'] in ('incr', 'decr'):
+            o = {'op': 'get', 'k': o['k'], 'adv': o.get('adv', 0)}
+        elif o['op'] == 'read':
+            o['op'] = 'getitem'
+        if o.get('rd'):
+            del o['rd']
+            if 'vb' in o:
+                o['v'] = 'v-' + o.pop('vb')[:6]
+        out.append(o)
+    return out
+
+
+# ---------------------------------------------------------------------------
 # reference: one dictionary with expiry, written from the property text / documentation
 
 
 class Ref:
-    def __init__(self):
+    def __init__(self, identf=None):
         self.d = {}          # ident -> [key, value, expire_time|None, tag, stored-from-a-stream]   (insertion ordered)
         self.hits = 0
         self.misses = 0
+        self.ident = identf or ident      # key identity: the documented one, or the one of the configured Disk (ident_for)
 
     def _live(self, e, now):
         return e is not None and (e[2] is None or e[2] > now)
 
     def set(self, k, v, ttl, tag, now, stream=False):
-        e = self.d.get(ident(k))
+        e = self.d.get(self.ident(k))
         exp = None if ttl is None else now + ttl
         if e is None:
-            self.d[ident(k)] = [k, v, exp, tag, stream]
+            self.d[self.ident(k)] = [k, v, exp, tag, stream]
         else:
             e[1:] = [v, exp, tag, stream]
         return True
 
     def add(self, k, v, ttl, tag, now, stream=False):
-        if self._live(self.d.get(ident(k)), now):
+        if self._live(self.d.get(self.ident(k)), now):
             return False
         return self.set(k, v, ttl, tag, now, stream)
 
@@ -192,7 +281,7 @@ class Ref:
         return ('missing',) + Ref._meta(None, o)
 
     def get(self, k, now, count=True, o=None):
-        e = self.d.get(ident(k))
+        e = self.d.get(self.ident(k))
         if self._live(e, now):
             self.hits += count
             kind = 'handle' if (o or {}).get('rd') and e[4] else 'val'      # read=True: an open file for a value kept in a file
@@ -201,17 +290,17 @@ class Ref:
         return self._miss(o)
 
     def contains(self, k, now):
-        return self._live(self.d.get(ident(k)), now)
+        return self._live(self.d.get(self.ident(k)), now)
 
     def touch(self, k, ttl, now):
-        e = self.d.get(ident(k))
+        e = self.d.get(self.ident(k))
         if not self._live(e, now):
             return False
         e[2] = None if ttl is None else now + ttl
         return True
 
     def incr(self, k, delta, default, now):
-        e = self.d.get(ident(k))
+        e = self.d.get(self.ident(k))
         if self._live(e, now):
             if type(e[1]) is not int:
                 return ('exc', 'TypeError')
@@ -220,15 +309,15 @@ class Ref:
         if default is None:
             return ('exc', 'KeyError')
         if e is None:
-            self.d[ident(k)] = [k, default + delta, None, None, False]
+            self.d[self.ident(k)] = [k, default + delta, None, None, False]
         else:
             e[1:] = [default + delta, None, None, False]
         return ('val', default + delta)
 
     def pop(self, k, now, o=None):
-        e = self.d.get(ident(k))
+        e = self.d.get(self.ident(k))
         if self._live(e, now):
-            del self.d[ident(k)]
+            del self.d[self.ident(k)]
             return ('val', e[1]) + self._meta(e, o)
         return self._miss(o)
 
@@ -264,6 +353,25 @@ OPS = ['set', 'set', 'set', 'setitem', 'add', 'get', 'get', 'getitem', 'contains
        'delitem', 'len', 'iter', 'reversed', 'expire', 'evict', 'clear', 'stats', 'volume', 'check', 'get', 'pop', 'read']
 TTLS = [None, None, 0.5, 1.5, 2.5, 7.5]
 TAGS = [None, None, 't1', 't2']
+# tags that are false in a boolean context and are not None: ordinary tag values (the tag column takes the same native types as a
+# key: int, float, str, bytes).  A history uses at most ONE of the two numeric ones: SQLite compares 0 and 0.0 equal, the Coq
+# dictionary compares tags structurally, and the property says nothing about tags that are equal numbers of different types.
+FALSY_TAGS = [0, 0.0, '', b'']
+
+
+def falsy_tags(rng):
+    """a non-empty selection of FALSY_TAGS with at most one numeric member"""
+    pool = [rng.choice([0, 0.0]), '', b'']
+    return rng.sample(pool, rng.choice([1, 2, 3]))
+
+
+def tag_json(t):
+    """tags inside a replay case (JSON): bytes as {'bytes': hex}"""
+    return {'bytes': t.hex()} if isinstance(t, bytes) else t
+
+
+def tag_value(t):
+    return bytes.fromhex(t['bytes']) if isinstance(t, dict) else t
 MISSING = ('missing',)
 # how a lookup passes its default: the harness sentinel by keyword / positionally / no default at all (None comes back) / another object
 DEFAULT_MODES = ['sent', 'sent', 'pos', 'omit', 'obj']
@@ -272,6 +380,8 @@ RETRY_OPS = ('set', 'add', 'touch', 'incr', 'decr', 'get', 'pop', 'delete')
 
 def gen_history(rng, nops, npool):
     h = []
+    tags = TAGS + (falsy_tags(rng) if rng.random() < 0.5 else [])
+    evict_tags = ['t1', 't2', 't3'] + [t for t in tags if t is not None and t not in ('t1', 't2')]
     for _ in range(nops):
         op = rng.choice(OPS)
         if op == 'clear' and rng.random() < 0.6:
@@ -287,7 +397,7 @@ def gen_history(rng, nops, npool):
         if op in ('set', 'add', 'touch'):
             o['ttl'] = rng.choice(TTLS)
         if op in ('set', 'add'):
-            o['tag'] = rng.choice(TAGS)
+            o['tag'] = tag_json(rng.choice(tags))
         if op in ('incr', 'decr'):
             o['delta'] = rng.choice([1, 1, 2, -3, 10])
             o['default'] = rng.choice([0, 0, 5, None])
@@ -304,7 +414,7 @@ def gen_history(rng, nops, npool):
         if op in RETRY_OPS and rng.random() < 0.15:
             o['retry'] = rng.random() < 0.7
         if op == 'evict':
-            o['tag'] = rng.choice(['t1', 't2', 't3'])
+            o['tag'] = tag_json(rng.choice(evict_tags))
         if op in ('expire', 'evict', 'clear'):
             o['fault'] = rng.choice([None, None, [rng.randrange(13), rng.randrange(0, 3), rng.randrange(1, 3)]])   # shard, partial, times
         h.append(o)
@@ -429,18 +539,18 @@ def stored_value(o):
     return bytes.fromhex(o['vb']) if 'vb' in o else o['v']
 
 
-def apply_op(target, kind, o, key, now, stats_on):
-    """kind: 'fanout' | 'cache' | 'ref'.  Returns a comparable outcome."""
+def apply_op(target, kind, o, key, now, stats_on, identf=ident):
+    """kind: 'fanout' | 'cache' | 'ref'.  identf: the key identity iteration results are compared under.  Returns a comparable outcome."""
     op = o['op']
     if kind == 'ref':
         r = target
         if op == 'set':
-            return ('val', r.set(key, stored_value(o), o['ttl'], o['tag'], now, bool(o.get('rd'))))
+            return ('val', r.set(key, stored_value(o), o['ttl'], tag_value(o['tag']), now, bool(o.get('rd'))))
         if op == 'setitem':
             r.set(key, o['v'], None, None, now)
             return ('val', None)
         if op == 'add':
-            return ('val', r.add(key, stored_value(o), o['ttl'], o['tag'], now, bool(o.get('rd'))))
+            return ('val', r.add(key, stored_value(o), o['ttl'], tag_value(o['tag']), now, bool(o.get('rd'))))
         if op == 'get':
             return r.get(key, now, stats_on, o)
         if op == 'read':
@@ -464,11 +574,11 @@ def apply_op(target, kind, o, key, now, stats_on):
         if op == 'len':
             return ('val', len(r.d))
         if op in ('iter', 'reversed'):
-            return ('keys', sorted(repr(ident(k)) for k in r.keys()))
+            return ('keys', sorted(repr(identf(k)) for k in r.keys()))
         if op == 'expire':
             return ('val', r.expire(now))
         if op == 'evict':
-            return ('val', r.evict(o['tag']))
+            return ('val', r.evict(tag_value(o['tag'])))
         if op == 'clear':
             return ('val', r.clear())
         if op == 'stats':
@@ -480,7 +590,7 @@ def apply_op(target, kind, o, key, now, stats_on):
         kw = dict(rt)
         if o.get('rd'):
             kw['read'] = True
-        return out(lambda: getattr(c, op)(key, io.BytesIO(stored_value(o)) if o.get('rd') else o['v'], expire=o['ttl'], tag=o['tag'], **kw))
+        return out(lambda: getattr(c, op)(key, io.BytesIO(stored_value(o)) if o.get('rd') else o['v'], expire=o['ttl'], tag=tag_value(o['tag']), **kw))
     if op == 'setitem':
         def f():
             c[key] = o['v']
@@ -516,13 +626,13 @@ def apply_op(target, kind, o, key, now, stats_on):
     if op == 'len':
         return out(lambda: len(c))
     if op == 'iter':
-        return ('keys', sorted(repr(ident(k)) for k in c))
+        return ('keys', sorted(repr(identf(k)) for k in c))
     if op == 'reversed':
-        return ('keys', sorted(repr(ident(k)) for k in reversed(c)))
+        return ('keys', sorted(repr(identf(k)) for k in reversed(c)))
     if op == 'expire':
         return out(lambda: c.expire())
     if op == 'evict':
-        return out(lambda: c.evict(o['tag']))
+        return out(lambda: c.evict(tag_value(o['tag'])))
     if op == 'clear':
         return out(lambda: c.clear())
     if op == 'stats':
@@ -579,12 +689,14 @@ def run_history(case, base=None, mrec=None):
     settings = dict(eviction_policy='none', size_limit=2 ** 40, statistics=stats_on)
     if not case.get('cull'):
         settings['cull_limit'] = 0
+    settings.update(disk_settings(case.get('disk')))
+    identf = ident_for(case.get('disk'))
     record = []
     bad = None
     with instr.Installed(clock, extra_modules=[fanout_mod]):
         fc = diskcache.FanoutCache(d1, shards=n, **settings)
         sc = diskcache.Cache(d2, **settings)
-        ref = Ref()
+        ref = Ref(identf)
         try:
             for i, o in enumerate(case['ops']):
                 clock.advance(o.get('adv', 0))
@@ -595,13 +707,13 @@ def run_history(case, base=None, mrec=None):
                     sh, partial, times = o['fault']
                     flaky = Flaky(fc._shards[sh % n], o['op'], partial, times)
                 try:
-                    a = apply_op(fc, 'fanout', o, key, now, stats_on)
+                    a = apply_op(fc, 'fanout', o, key, now, stats_on, identf)
                     agg = aggregate_checks(fc, o, stats_on)
                 finally:
                     if flaky is not None:
                         flaky.restore()
-                b = apply_op(sc, 'cache', o, key, now, stats_on)
-                c = apply_op(ref, 'ref', o, key, now, stats_on)
+                b = apply_op(sc, 'cache', o, key, now, stats_on, identf)
+                c = apply_op(ref, 'ref', o, key, now, stats_on, identf)
                 record.append((o['op'], a))
                 if mrec is not None:
                     extra = None
@@ -624,7 +736,8 @@ def run_history(case, base=None, mrec=None):
                     bad = {'at': i, 'op': op_label(o), 'why': 'FanoutCache returned %r, one dictionary returns %r' % (a, c), 'kind': 'reference'}
                     break
                 if not same_out(a, b):
-                    bad = {'at': i, 'op': op_label(o), 'why': 'FanoutCache returned %r, a single Cache returned %r' % (a, b), 'kind': 'single-cache'}
+                    bad = {'at': i, 'op': op_label(o), 'why': 'FanoutCache returned %r, a single Cache %sreturned %r' % (
+                        a, 'with the same %s ' % disk_label(case['disk']) if case.get('disk') else '', b), 'kind': 'single-cache'}
                     break
         finally:
             fc.close()
@@ -664,11 +777,14 @@ def shrink(case, base, budget=60):
 def sig_of(case, bad):
     keys = [pickle.loads(bytes.fromhex(x)) for x in case['keys_hex']]
     used = [keys[o['k'] % len(keys)] for o in case['ops'] if o['op'] not in ('len', 'iter', 'reversed', 'expire', 'evict', 'clear', 'stats', 'volume', 'check')]
+    dc = case.get('disk')
+    if dc and 'json' in dc:       # JSONDisk: 1 and 1.0 are two keys ('1' and '1.0'), the recorded finding is about the native key columns
+        return 'one_cache:%s:%s:JSONDisk' % (bad['kind'], bad['op'])
     for a in used:
         for b in used:
             if equal_pair_of_finding(a, b):
                 return 'route_int_float_equal'
-    return 'one_cache:%s:%s' % (bad['kind'], bad['op'])
+    return 'one_cache:%s:%s%s' % (bad['kind'], bad['op'], ':pickle_protocol' if dc else '')
 
 
 def monitor_equivalence(ctx, res, nhist, nops, hist, modelcases=None):
@@ -678,11 +794,19 @@ def monitor_equivalence(ctx, res, nhist, nops, hist, modelcases=None):
         n = SHARD_COUNTS[hno % len(SHARD_COUNTS)]
         finding_stream = (hno % 12 == 11)
         cull = (hno % 7 == 6)
-        pool = gen_pool(ctx.rng, ctx.rng.randrange(4, 10), finding=finding_stream)
+        dc = DISK_CONFIGS[(hno // 5) % len(DISK_CONFIGS)] if (hno % 5 == 3 and not finding_stream) else None
+        if dc is not None:
+            # the shard count moves with the configuration, so that every configuration meets every shard count
+            n = SHARD_COUNTS[(hno // 5 + hno // (5 * len(DISK_CONFIGS))) % len(SHARD_COUNTS)]
+            pool = gen_disk_pool(ctx.rng, dc, ctx.rng.randrange(5, 11))
+        else:
+            pool = gen_pool(ctx.rng, ctx.rng.randrange(4, 10), finding=finding_stream)
         case = {'check': 'history', 'shards': n, 'stats': hno % 2 == 0, 'cull': cull,
                 'keys': [repr(k)[:60] for k in pool], 'keys_hex': [pickle.dumps(k, protocol=4).hex() for k in pool],
                 'ops': gen_history(ctx.rng, nops, len(pool)), 'stream': 'int_float_pairs' if finding_stream else 'main'}
-        mrec = [] if (modelcases is not None and not cull) else None
+        if dc is not None:
+            case.update({'disk': dc, 'ops': disk_history_ops(dc, case['ops']), 'stream': disk_label(dc).split('(')[0] + ('' if 'json' in dc else '(pickle_protocol)')})
+        mrec = [] if (modelcases is not None and not cull and dc is None) else None
         bad, record = run_history(case, base, mrec)
         if bad is None and mrec:
             modelcases.append((n, pool, mrec))
@@ -708,8 +832,8 @@ def monitor_equivalence(ctx, res, nhist, nops, hist, modelcases=None):
                 if sbad is not None:
                     case, bad = small, sbad
             case = dict(case, failure=bad)
-            res.violations.append(fw.Violation(sig_of(case, bad), 'history on %d shards, operation %d (%s): %s' % (
-                case['shards'], bad['at'], bad['op'], bad['why']), case))
+            res.violations.append(fw.Violation(sig_of(case, bad), 'history on %d shards%s, operation %d (%s): %s' % (
+                case['shards'], ' with %s' % disk_label(case['disk']) if case.get('disk') else '', bad['at'], bad['op'], bad['why']), case))
 
 
 # ---------------------------------------------------------------------------
@@ -746,6 +870,8 @@ def gen_bulk_case(rng, n, disk):
     cull_limit = 0 if rng.random() < 0.8 else 10
     total = 2 ** 30 if (scenario == 'expired' and rng.random() < 0.5) else BULK_SHARE * n
     keys, steps = [], []
+    tags = TAGS + (falsy_tags(rng) if rng.random() < 0.5 else [])
+    evict_tags = ['t1', 't2', 't3'] + [t for t in tags if t is not None and t not in ('t1', 't2')]
 
     fresh = {i: 0 for i in range(n)}
 
@@ -759,27 +885,27 @@ def gen_bulk_case(rng, n, disk):
         if not any(val.same(k, x) for x in keys):
             keys.append(k)
         ki = [i for i, x in enumerate(keys) if val.same(k, x)][0]
-        steps.append({'op': 'set', 'k': ki, 'size': size, 'ttl': ttl, 'tag': tag, 'adv': rng.choice([0.25, 0.5, 1.0])})
+        steps.append({'op': 'set', 'k': ki, 'size': size, 'ttl': ttl, 'tag': tag_json(tag), 'adv': rng.choice([0.25, 0.5, 1.0])})
 
     for rnd in range(rng.choice([1, 1, 2])):
         hot = rng.sample(range(n), min(n, rng.choice([1, 1, 2])))
         if scenario in ('expired', 'mixed'):
             for _ in range(rng.randrange(5, 14)):
-                write(rng.randrange(n), rng.choice([50, 300, 300, BULK_FILE]), rng.choice([None, 2.0, 2.0, 5.0, 20.0]), rng.choice(TAGS))
+                write(rng.randrange(n), rng.choice([50, 300, 300, BULK_FILE]), rng.choice([None, 2.0, 2.0, 5.0, 20.0]), rng.choice(tags))
         if scenario in ('skew', 'mixed'):
             for h in hot:
                 for _ in range(rng.choice([8, 12, 17, 25])):
-                    write(h, BULK_FILE, rng.choice([None, None, None, 5.0]), rng.choice(TAGS), distinct=True)
+                    write(h, BULK_FILE, rng.choice([None, None, None, 5.0]), rng.choice(tags), distinct=True)
             for _ in range(rng.randrange(0, 4)):
-                write(rng.randrange(n), rng.choice([50, 300]), None, rng.choice(TAGS))
+                write(rng.randrange(n), rng.choice([50, 300]), None, rng.choice(tags))
         if scenario == 'over':
             for i in range(n):
                 for _ in range(rng.choice([8, 12])):
-                    write(i, BULK_FILE, rng.choice([None, None, 5.0]), rng.choice(TAGS), distinct=True)
+                    write(i, BULK_FILE, rng.choice([None, None, 5.0]), rng.choice(tags), distinct=True)
         op = rng.choice(['cull', 'cull', 'cull', 'cull', 'expire', 'evict', 'clear'])
         st = {'op': op, 'adv': rng.choice([0, 0, 3, 3, 6, 30]), 'retry': rng.random() < 0.3}
         if op == 'evict':
-            st['tag'] = rng.choice(['t1', 't2', 't3'])
+            st['tag'] = tag_json(rng.choice(evict_tags))
         steps.append(st)
         if op != 'cull' and rng.random() < 0.5:
             steps.append({'op': 'cull', 'adv': rng.choice([0, 3]), 'retry': False})
@@ -842,11 +968,11 @@ def run_bulk(case, base=None):
                     k = keys[st['k']]
                     v = b'v' * st['size']
                     i = core.Disk.hash(fc.disk, k) % n
-                    fc.set(k, v, expire=st['ttl'], tag=st['tag'], retry=True)
-                    split[i].set(k, v, expire=st['ttl'], tag=st['tag'], retry=True)
-                    one.set(k, v, expire=st['ttl'], tag=st['tag'], retry=True)
+                    fc.set(k, v, expire=st['ttl'], tag=tag_value(st['tag']), retry=True)
+                    split[i].set(k, v, expire=st['ttl'], tag=tag_value(st['tag']), retry=True)
+                    one.set(k, v, expire=st['ttl'], tag=tag_value(st['tag']), retry=True)
                     continue
-                args = (st['tag'],) if op == 'evict' else ()
+                args = (tag_value(st['tag']),) if op == 'evict' else ()
                 over = [i for i in range(n) if split[i].volume() > split[i].size_limit]
                 if op == 'cull' and case['policy'] != 'none' and (over or one.volume() > one.size_limit):
                     one_ok = False              # something is removed for its size: which items depends on the division
@@ -881,8 +1007,8 @@ def run_bulk(case, base=None):
                         bad = fail('postcondition', 'returned %r, %d rows disappeared' % (a, before - len(fc)))
                     elif op in ('cull', 'expire') and any(expired_rows(d, now) for d in dirs):
                         bad = fail('postcondition', 'rows past their expiry time are left in shards %r' % ([i for i, d in enumerate(dirs) if expired_rows(d, now)],))
-                    elif op == 'evict' and any(tagged_rows(d, st['tag']) for d in dirs):
-                        bad = fail('postcondition', 'rows tagged %r are left in shards %r' % (st['tag'], [i for i, d in enumerate(dirs) if tagged_rows(d, st['tag'])]))
+                    elif op == 'evict' and any(tagged_rows(d, tag_value(st['tag'])) for d in dirs):
+                        bad = fail('postcondition', 'rows tagged %r are left in shards %r' % (tag_value(st['tag']), [i for i, d in enumerate(dirs) if tagged_rows(d, tag_value(st['tag']))]))
                     elif op == 'clear' and len(fc) != 0:
                         bad = fail('postcondition', '%d rows are left' % len(fc))
                     elif op == 'cull' and case['policy'] != 'none':
@@ -1264,6 +1390,129 @@ def monitor_placement(ctx, res, keys, hist, obs):
         fc.close()
 
 
+def disk_placement_case(case, d):
+    """One FanoutCache constructed with a Disk configuration (case['disk']) on case['shards'] shards.  Decided from the directories
+    alone: (a) the disk of the cache and of every shard is of the configured class with the configured settings; (b) each key's row
+    appears in directory '%03d' % (H(key) % shards), H being the hash of a Disk of that configuration which the harness builds itself;
+    (c) keys which that Disk serialises identically are received by ONE directory and are one item (a second spelling replaces, it
+    does not add); (d) the same through later handles that do not repeat the disk_ settings -- a second construction (only the
+    Disk class is given again: it is not stored) and pickle.loads(pickle.dumps(handle)): same disk settings, every item found under
+    every spelling, a write of every key through the handle adds no row anywhere.  Returns (hits, info)."""
+    dc, n = case['disk'], case['shards']
+    keys = [pickle.loads(bytes.fromhex(x)) for x in case['keys_hex']]
+    identf = ident_for(dc)
+    label = 'FanoutCache(shards=%d, %s)' % (n, ', '.join('%s=%s' % (k, getattr(v, '__name__', v)) for k, v in sorted(disk_settings(dc).items())))
+    hits, info = [], {'placements': 0, 'equal_groups': 0}
+    mine = own_disk(dc, os.path.join(d, 'own'))
+    top = os.path.join(d, 'f')
+    fc = diskcache.FanoutCache(top, shards=n, eviction_policy='none', **disk_settings(dc))
+    handles = [fc]
+
+    def disk_hits(h, how):
+        out = []
+        for where, dk in [('the cache', h.disk)] + [('shard %d' % i, sh.disk) for i, sh in enumerate(h._shards)]:
+            if type(dk) is not type(mine):
+                out.append(('disk_config_not_applied', '%s%s: the disk of %s is a %s, configured: %s' % (label, how, where, type(dk).__name__, type(mine).__name__)))
+            elif 'json' in dc and getattr(dk, 'compress_level', None) != dc['json']:
+                out.append(('disk_config_not_applied', '%s%s: the disk of %s has compress_level %r' % (label, how, where, getattr(dk, 'compress_level', None))))
+            elif 'proto' in dc and getattr(dk, 'pickle_protocol', None) != dc['proto']:
+                out.append(('disk_config_not_applied', '%s%s: the disk of %s has pickle_protocol %r' % (label, how, where, getattr(dk, 'pickle_protocol', None))))
+        return out[:1]
+    try:
+        hits += disk_hits(fc, '')
+        dirs = shard_dirs(top)
+        home = {}           # identity -> (directory, first spelling)
+        for i, k in enumerate(keys):
+            before = {s_: db_rows(top, s_) for s_ in dirs}
+            fc.set(k, i, retry=True)
+            after = {s_: db_rows(top, s_) for s_ in dirs}
+            got = [s_ for s_ in dirs if after[s_] == before[s_] + 1]
+            idk = identf(k)
+            info['placements'] += 1
+            if idk in home:
+                info['equal_groups'] += 1
+                if got or any(after[s_] != before[s_] for s_ in dirs):
+                    hits.append(('equal_keys_different_shards', '%s: key %r is the key %r for this disk (both are stored as %r), which directory %s holds, but storing it added a row '
+                                 'in %r' % (label, k, home[idk][1], mine.put(k)[0] if 'json' not in dc else json.dumps(k), home[idk][0], got)))
+                    break
+                continue
+            want = '%03d' % (mine.hash(k) % n)
+            if got != [want]:
+                hits.append(('placement_by_own_disk', '%s: the row of key %r appeared in %r; the hash of a %s is %d, i.e. directory %s' % (
+                    label, k, got, disk_label(dc), mine.hash(k), want)))
+                break
+            home[idk] = (want, k)
+        last = {}
+        for i, k in enumerate(keys):
+            last[identf(k)] = i
+        if not hits:
+            for k in keys:
+                r = fc.get(k, default=SENT, retry=True)
+                if r is SENT or r != last[identf(k)]:
+                    hits.append(('equal_keys_different_shards' if home.get(identf(k), (0, k))[1] is not k else 'placement_lookup',
+                                 '%s: get(%r) returned %r, the value stored last under that key (spelled %r) is %r' % (
+                                     label, k, 'nothing' if r is SENT else r, home[identf(k)][1], last[identf(k)])))
+                    break
+        if not hits:
+            for how in ('a second construction with only the Disk class repeated', 'pickle.loads(pickle.dumps(handle))'):
+                h = diskcache.FanoutCache(top, shards=n, **disk_reopen_settings(dc)) if how.startswith('a second') else pickle.loads(pickle.dumps(fc))
+                handles.append(h)
+                hits += disk_hits(h, ' seen through ' + how)
+                rows = {s_: db_rows(top, s_) for s_ in dirs}
+                for k in keys:
+                    r = h.get(k, default=SENT, retry=True)
+                    if r is SENT or r != last[identf(k)]:
+                        hits.append(('later_handle_routes_differently', '%s seen through %s: get(%r) returned %r, stored: %r' % (
+                            label, how, k, 'nothing' if r is SENT else r, last[identf(k)])))
+                        break
+                    h.set(k, last[identf(k)], retry=True)
+                rows2 = {s_: db_rows(top, s_) for s_ in dirs}
+                if not hits and rows2 != rows:
+                    hits.append(('later_handle_routes_differently', '%s seen through %s: storing every key again changed the rows per directory from %r to %r' % (
+                        label, how, rows, rows2)))
+                if hits:
+                    break
+    finally:
+        for h in handles:
+            h.close()
+    return hits, info
+
+
+def disk_placement_cases(rng, thorough):
+    out = []
+    for ci, dc in enumerate(DISK_CONFIGS):
+        counts = SHARD_COUNTS[1:] if thorough else [SHARD_COUNTS[1:][(ci + rng.randrange(4)) % 4], 8 if ci % 2 else 13]
+        for n in sorted(set(counts)):
+            keys = list(JSON_KEYS if 'json' in dc else PROTO_KEYS)
+            rng.shuffle(keys)
+            out.append({'check': 'disk_placement', 'disk': dc, 'shards': n, 'keys': [repr(k)[:40] for k in keys],
+                        'keys_hex': [pickle.dumps(k, protocol=4).hex() for k in keys]})
+    return out
+
+
+def monitor_disk_placement(ctx, res, hist, thorough):
+    seen = set()
+    st = hist.setdefault('disk_configurations', {'cases': 0, 'placements': 0, 'keys_equal_to_an_earlier_one': 0, 'configurations': {}})
+    for case in disk_placement_cases(ctx.rng, thorough):
+        d = ctx.scratch('c13dk')
+        try:
+            hits, info = disk_placement_case(case, d)
+        except Exception as e:  # noqa: BLE001
+            hits, info = [('disk_config_raised:%s' % type(e).__name__, 'FanoutCache with %s on %d shards: %r' % (disk_label(case['disk']), case['shards'], e))], {}
+        shutil.rmtree(d, ignore_errors=True)
+        st['cases'] += 1
+        st['placements'] += info.get('placements', 0)
+        st['keys_equal_to_an_earlier_one'] += info.get('equal_groups', 0)
+        st['configurations'][disk_label(case['disk'])] = st['configurations'].get(disk_label(case['disk']), 0) + 1
+        res.count(['disk-placement', case['disk'], case['shards'], case['keys_hex']], nontrivial=case['shards'] > 1)
+        for sig, desc in hits:
+            sig = '%s:%s' % (sig, 'JSONDisk' if 'json' in case['disk'] else 'pickle_protocol')
+            if sig in seen:
+                continue
+            seen.add(sig)
+            res.violations.append(fw.Violation(sig, desc, dict(case, sig=sig)))
+
+
 CHILD = r'''
 import sys, json, pickle, os
 sys.path.insert(0, sys.argv[1])
@@ -1557,7 +1806,7 @@ def model_history_term(n, pool, mrec):
         t = instr.ticks(now)
         if op in KEYED_M:
             e = fw.copt(instr.ticks(o.get('ttl')))
-            tg = 'None' if o.get('tag') is None else '(Some %s)' % val.py_term(o['tag'])
+            tg = 'None' if o.get('tag') is None else '(Some %s)' % val.py_term(tag_value(o['tag']))
             v = val.py_term(stored_value(o)) if ('v' in o or 'vb' in o) else '(VInt 0)'
             ops.append('FKeyed %s (E %s %s %s %s %s %s %s)' % (KEYED_M[op], val.py_term(pool[ki]), v, e, tg, fw.cz(o.get('delta', 0)),
                                                           fw.copt(o.get('default')), fw.cz(t)))
@@ -1568,7 +1817,7 @@ def model_history_term(n, pool, mrec):
         elif op == 'expire':
             ops.append('FExpire %s' % fw.cz(t))
         elif op == 'evict':
-            ops.append('FEvict %s' % val.py_term(o['tag']))
+            ops.append('FEvict %s' % val.py_term(tag_value(o['tag'])))
         elif op == 'iter':
             ops.append('FIter')
         elif op == 'reversed':
@@ -1617,7 +1866,11 @@ def run(ctx, big=False):
                 'equal pairs only in their own stream.  Every optional parameter of the key-addressed methods is drawn: get/pop with expire_time, tag '
                 '(each alone and together: the returned tuple is compared member by member), get with read=True (open files compared by content), '
                 'default given by keyword / positionally / omitted / another object, set/add with read=True (value handed over as a stream), expire, '
-                'tag, incr/decr default None/0/5, retry on every method that has it.  (1b) two-handle settings histories: handles A and B on one '
+                'tag, incr/decr default None/0/5, retry on every method that has it.  Tags: None, text, and in half of the histories the tags that are false '
+                'in a boolean context ("", b"", and one of 0 / 0.0) for set / add / evict / get(tag=True) / pop(tag=True).  One history in five runs under a Disk '
+                'configuration -- disk=JSONDisk with compress level 0, 1, 6, 9 (keys JSON can spell, with several spellings of one key: list / tuple, '
+                'int / text object keys; no counters, raw reads or streams, which JSONDisk does not offer) or disk_pickle_protocol 0, 2, highest -- against '
+                'one Cache with the same configuration and a dictionary keyed by that Disk\'s serialisation.  (1b) two-handle settings histories: handles A and B on one '
                 'directory, reset(key, value) / reset(key) / stats(enable, reset) on statistics, cull_limit, eviction_policy, size_limit through '
                 'either handle interleaved with writes, lookups, len, iteration and expire(), compared step by step with two handles on one '
                 'unsharded Cache driven by the same steps and with the documented meaning of reset (the value stored last is what a reload '
@@ -1629,7 +1882,11 @@ def run(ctx, big=False):
                 'Cache holding the whole limit; on the FanoutCache\'s own shards: count = rows that disappeared, no row past its expiry time left after cull / expire, '
                 'no tagged row after evict, none after clear, no shard above its share after cull.  (2) every key of a fixed list stored on every shard count: the NNN directory whose cache.db '
                 'receives the row is %03d of Disk.hash % shards; the list hashed and written/read in 4 fresh interpreters with different PYTHONHASHSEED '
-                'and compared with fixtures/routing.json.  (3) model hash/shard/shard_dir/shard_size_limit/shard_limit_passed/adler32 against the implementation.  '
+                'and compared with fixtures/routing.json.  (2b) the same Disk configurations on 2-13 shards: the disk of the cache and of every shard is the '
+                'configured one, every row appears in the directory named by the hash of a Disk of that configuration built by the harness, keys that '
+                'Disk serialises identically are received by one directory and are one item, and a second construction that repeats only the Disk class '
+                'and pickle.loads(pickle.dumps(handle)) show the same disk settings, find every item under every spelling and add no row when every key is '
+                'stored again.  (3) model hash/shard/shard_dir/shard_size_limit/shard_limit_passed/adler32 against the implementation.  '
                 'non-trivial = history with more than 5 executed operations, placement with more than one shard; distinct = distinct case content.')
     hist = {'ops': {}, 'outcomes': {}, 'shards': {}, 'streams': {}, 'key_classes': {}, 'keys_per_shard': {}, 'placements': 0, 'faults': 0, 'variants': {}, 'settings_steps': {}}
     obs = {'keys': [], 'dirs': [], 'limits': [], 'handed': []}
@@ -1652,6 +1909,7 @@ def run(ctx, big=False):
         if not any(val.same(k, u) for u in uniq):
             uniq.append(k)
     monitor_placement(ctx, res, uniq, hist, obs)
+    monitor_disk_placement(ctx, res, hist, thorough)
     monitor_processes(ctx, res, hist)
     monitor_pickled_handle(ctx, res, hist)
     if not ctx.search_mode:
@@ -1662,7 +1920,8 @@ def run(ctx, big=False):
                       'histories_by_stream': hist['streams'], 'key_class_histogram': hist['key_classes'],
                       'optional_parameter_variants': hist['variants'], 'two_handle_settings_steps': hist['settings_steps'],
                       'keys_per_shard': hist['keys_per_shard'], 'placements': hist['placements'], 'injected_timeouts': hist['faults'],
-                      'interpreters': hist.get('interpreters', 0), 'bulk_removals': hist.get('bulk', {}), 'exhaustive': False})
+                      'interpreters': hist.get('interpreters', 0), 'bulk_removals': hist.get('bulk', {}),
+                      'disk_configurations': hist.get('disk_configurations', {}), 'exhaustive': False})
     return res
 
 
@@ -1692,6 +1951,19 @@ def replay(payload):
             print('  %s %-7s -> %r' % (h, op, a))
         print('two handles on %d shards: %s' % (case['shards'], 'agree with two handles on one Cache' if bad is None else bad['why']))
         return bad is None
+    if kind == 'disk_placement':
+        d = tempfile.mkdtemp(prefix='c13r-')
+        try:
+            hits, info = disk_placement_case(case, d)
+        finally:
+            shutil.rmtree(d, ignore_errors=True)
+        print('FanoutCache with %s on %d shards, %d keys stored one after the other (%d of them equal, for that disk, to an earlier one)' % (
+            disk_label(case['disk']), case['shards'], info.get('placements', 0), info.get('equal_groups', 0)))
+        for sig, desc in hits:
+            print('MONITOR [%s]: %s' % (sig, desc))
+        if not hits:
+            print('every row went to the directory the hash of that disk names, equal keys share a directory, later handles agree')
+        return not hits
     if kind == 'placement' and 'key_hex' in case:
         k = pickle.loads(bytes.fromhex(case['key_hex']))
         d = tempfile.mkdtemp(prefix='c13r-')
